@@ -25,5 +25,6 @@ def run(ctx, replay=None):
               dict(shape="two", max_env=2, flags="m,c,o", extra="a", faults=False),
               dict(shape="chain", max_env=2, flags="m,c,e", extra="o", faults=False, env=WIDE),
               dict(shape="star", max_env=2, flags="m,c,e", faults=False, env="EditProfile,Expire,Edit,DeleteArt"),
-              dict(shape="chain", max_env=0, flags="m,c,o,e", extra="a", faults=True, random_walks=4000, walk_len=12, env=WIDE)]
+              dict(shape="chain", max_env=0, flags="m,c,o,e", extra="a", faults=True, random_walks=4000, walk_len=12, env=WIDE),
+              dict(shape="chain", max_env=2, flags="m", extra="c,m;c,m,o", faults=False, native=True, env=WIDE)]
     return repo.run_lifecycle(ctx, "C12", mc, ex, "model_checking", ASSUME, replay)
